@@ -217,6 +217,39 @@ var c10FnNames = func() []string {
 	return out
 }()
 
+var c10PredArity = map[string]int{}
+
+var c10PredNames = func() []string {
+	var out []string
+	for p := range builtin.Predicates {
+		out = append(out, p.Symbol)
+		c10PredArity[p.Symbol] = p.Arity
+	}
+	sort.Strings(out)
+	return out
+}()
+
+// c10BoundaryPredCall prints a built-in predicate applied to boundary arguments (declared arity in 4 of 5 calls).
+func c10BoundaryPredCall(r *rand.Rand) string {
+	p := c10PredNames[r.Intn(len(c10PredNames))]
+	n := c10PredArity[p]
+	if r.Intn(5) == 0 {
+		n = r.Intn(5)
+	}
+	pool := c10BoundaryArgs
+	if r.Intn(2) == 0 {
+		pool = c10BoundaryArgs[:c10BoundaryInts]
+	}
+	args := make([]string, n)
+	for i := range args {
+		args[i] = pool[r.Intn(len(pool))]
+		if r.Intn(4) == 0 {
+			args[i] = "Z"
+		}
+	}
+	return p + "(" + strings.Join(args, ", ") + ")"
+}
+
 var c10BoundaryArgs = []string{"0", "1", "-1", "2", "3", "7", "63", "64", "65", "2147483648", "4294967296", "-4294967296", "4611686018427387904", "9223372036854775807", "-9223372036854775808", "-9223372036854775807",
 	"0.0", "-0.0", "1.5", "1e308", "-1e308", "5e-324", "\"\"", "\"a\"", "\"\\u{10ffff}\"", "b\"\"", "/a", "[]", "[1]", "[1, 2, 3]", "[[]]", "{}", "[/a: 1]", "{/a: 1}", "fn:pair(1, 2)", "fn:list()", "fn:cons(1, [])",
 	"fn:time:parse_rfc3339(\"2024-01-15T00:00:00Z\")", "fn:duration:parse(\"1h\")", "fn:duration:parse(\"-2562047h\")", "X", "_"}
@@ -329,7 +362,7 @@ func (c10) Gen(r *rand.Rand, tier string, i int) any {
 		sb.WriteString("bnde(1).")
 		for j := 1 + r.Intn(3); j > 0; j-- {
 			call := c10BoundaryCall(r)
-			sb.WriteString([]string{" bnd(" + call + ").", " bndr(X) :- X = " + call + ".", " bndl(Y) :- bnde(_) |> let Y = " + call + ".", " bndc(Z) :- bnde(Z), " + call + " = Z."}[r.Intn(4)])
+			sb.WriteString([]string{" bnd(" + call + ").", " bndr(X) :- X = " + call + ".", " bndl(Y) :- bnde(_) |> let Y = " + call + ".", " bndc(Z) :- bnde(Z), " + call + " = Z.", " bndp(Z) :- bnde(Z), " + c10BoundaryPredCall(r) + "."}[r.Intn(5)])
 		}
 		if r.Intn(2) == 0 {
 			return c10Case{Kind: "source", Input: []byte(sb.String()), Via: "builtin-boundary-unit"}
